@@ -45,3 +45,15 @@ package common
 
 //@ extern strings.Join
 //@ ensures implies(len(elems) == 0, result == "") && implies(len(elems) == 1, result == elems[0])
+
+// ---- ghost events for the output gates (C08, C09, C10, C20) ----
+//@ event wroteFile(path string, mode os.FileMode)
+//@ event validatedSpec(ok bool)
+//@ event validatedConfig(ok bool)
+//@ event formattedCode(ok bool, out string)
+//@ event analysedSources()
+
+//@ extern os.WriteFile
+//@ emits wroteFile(name, perm)
+//@ extern os.MkdirAll
+//@ extern os.ReadFile
